@@ -25,11 +25,13 @@ TITLE = "cone constants α, d₁, u*, β vs certified optima"
 RULE = ("cases: bundled cones over their parameter ranges (ConeTheta2D θ=1°…179° and fractional angles, "
         "ice-cream K=3…32 × half-angles, ConeOrder3D kinds, componentwise 2…5) and random rational cones in "
         "2–4 dimensions with 1…m+3 unit-normalised float rows (shapes: generic, pythagorean, narrow, "
-        "redundant, non-pointed); non-trivial = every α_n and d₁ got a certified interval of width ≤ 1e-9 "
+        "redundant, non-pointed); cones with NON-unit rows (integer rows of harness/cones.py as given, rational rows, "
+        "and random/θ/ice-cream cones with every row scaled by its own factor from {0.1,0.4,0.5,2,3.7,10}) incl. the "
+        "scaling law α_n(diag(c)W)=c_n·α_n(W) on the real code; non-trivial = every α_n and d₁ got a certified interval of width ≤ 1e-9 "
         "and the direction certificate is ≤ 1e-6; distinct by the exact W matrix")
 ASSUMPTIONS = [
     "cones have non-empty interior (every generated cone has an interior direction by construction)",
-    "solver tolerance: code values are compared with certified intervals widened by 1e-7 (α absolute; d₁ relative to max(1,d₁))",
+    "solver tolerance: code values are compared with certified intervals widened by 1e-7 (α relative to max(1,‖w_n‖); d₁ relative to max(1,d₁))",
     "compute_u_star calls that exceed a 5 s wall-clock budget are counted as inconclusive (SLSQP with ftol=1e-30 / maxiter=10**6 "
     "can iterate for minutes after reaching the optimum); after three overruns per class and process the routine is skipped",
 ]
@@ -43,7 +45,7 @@ ICE_ANGLES = [10.0, 20.0, 30.0, 45.0, 60.0, 75.0, 85.0]
 
 
 # ----------------------------------------------------------------------------- generators
-def _rand_cone(rng, shape):
+def _rand_cone(rng, shape, normalise=True):
     m = rng.choice([2, 3, 4])
     while True:
         c = [rng.randint(-3, 3) for _ in range(m)]
@@ -82,12 +84,51 @@ def _rand_cone(rng, shape):
         a, b = rng.randint(1, 3), rng.randint(1, 3)
         rows.append([a * x + b * y for x, y in zip(rows[0], rows[1])])
         rng.shuffle(rows)
+    if not normalise:
+        # rational rows as given: integers over a power of two, norms far from 1
+        den = rng.choice([1, 2, 4, 8])
+        return [[float(t) / den for t in w] for w in rows]
     W = []
     for w in rows:
         v = np.array(w, dtype=float)
         v = v / np.linalg.norm(v)
         W.append([float(t) for t in v])
     return W
+
+
+SCALES = [0.1, 0.4, 0.5, 2.0, 3.7, 10.0]
+SHAPES = ["generic", "generic", "pythagorean", "narrow", "redundant", "nonpointed"]
+
+
+def _nonunit_case(rng, src):
+    """cones whose rows are NOT unit vectors: `W = diag(scale) · W0` (a different factor per row).
+    α_n is defined for the rows as given; the certificates need no unit-norm assumption."""
+    from harness.cones import EXACT_CONES
+
+    if src == "scaled-random":
+        W0 = _rand_cone(rng, rng.choice(SHAPES))
+    elif src == "rational":
+        W0 = _rand_cone(rng, rng.choice(SHAPES), normalise=False)
+    elif src == "exact":
+        name = rng.choice(sorted(EXACT_CONES))
+        W0 = [[float(t) for t in r] for r in EXACT_CONES[name][0]]
+    elif src == "scaled-theta":
+        from vopy.utils import get_2d_w
+
+        W0 = [[float(t) for t in r] for r in get_2d_w(float(rng.randint(5, 175)))]
+    elif src == "scaled-ice":
+        from vopy.order import ConeOrder3DIceCream
+
+        o = object.__new__(ConeOrder3DIceCream)
+        W0 = [[float(t) for t in r] for r in
+              ConeOrder3DIceCream.compute_ice_cream_cone(o, rng.randint(3, 8), float(rng.choice(ICE_ANGLES)))]
+    else:
+        raise ValueError(src)
+    if src in ("exact", "rational") and rng.random() < 0.4:
+        scale = [1.0] * len(W0)  # the rows exactly as given
+    else:
+        scale = [rng.choice(SCALES) for _ in W0]
+    return {"kind": "nonunit", "shape": src, "W0": W0, "scale": scale}
 
 
 def gen(ctx):
@@ -122,10 +163,19 @@ def gen(ctx):
         yield {"kind": "theta", "deg": rng.randint(1, 179 * 64 - 1) / 64.0 + 1 / 128.0}
     for _ in range(ctx.n(6, 700)):
         yield {"kind": "ice", "K": rng.randint(3, 32), "deg": rng.randint(5 * 8, 85 * 8) / 8.0}
-    # ---- random rational cones
-    shapes = ["generic", "generic", "pythagorean", "narrow", "redundant", "nonpointed"]
-    for _ in range(ctx.n(110, 9000)):
-        shape = rng.choice(shapes)
+    # ---- cones with non-unit rows: every integer-row cone of harness/cones.py as given, then scaled
+    from harness.cones import EXACT_CONES
+
+    for name in sorted(EXACT_CONES):
+        if mine():
+            W0 = [[float(t) for t in r] for r in EXACT_CONES[name][0]]
+            yield {"kind": "nonunit", "shape": "exact", "W0": W0, "scale": [1.0] * len(W0)}
+    for _ in range(ctx.n(36, 3000)):
+        yield _nonunit_case(rng, rng.choice(["scaled-random", "scaled-random", "rational", "exact",
+                                             "scaled-theta", "scaled-ice"]))
+    # ---- random rational cones (unit-normalised rows)
+    for _ in range(ctx.n(100, 9000)):
+        shape = rng.choice(SHAPES)
         yield {"kind": "random", "shape": shape, "W": _rand_cone(rng, shape)}
 
 
@@ -276,6 +326,10 @@ def _build(case):
         return ConeOrder3DIceCream(case["deg"], case["K"])
     if k == "random":
         return PolyhedralConeOrder(OrderingCone(np.array(case["W"], dtype=float)))
+    if k == "nonunit":
+        W0 = np.array(case["W0"], dtype=float)
+        c = np.array(case["scale"], dtype=float)
+        return PolyhedralConeOrder(OrderingCone(c[:, None] * W0))
     raise ValueError(k)
 
 
@@ -317,7 +371,7 @@ def _bits_to_float(s):
 # ----------------------------------------------------------------------------- the check
 def run_case(ctx, case):
     kind = case["kind"]
-    ctx.count("kind_" + kind + ("_" + case["shape"] if kind == "random" else ""))
+    ctx.count("kind_" + kind + ("_" + case["shape"] if kind in ("random", "nonunit") else ""))
     try:
         order = _build(case)
         cone = order.ordering_cone
@@ -367,10 +421,11 @@ def run_case(ctx, case):
             good = False
             continue
         ctx.count("alpha_rows_certified")
-        if Fraction(hi) - Fraction(lo) > TOL_CERT_WIDTH:
+        if Fraction(hi) - Fraction(lo) > TOL_CERT_WIDTH * max(Fraction(1), _sqrt_up(_dot(Wq[n], Wq[n]), 20)):
             ctx.count("alpha_interval_wide_info")
             good = False
-        if ctx.ask("inband", lo, hi, core.q(TOL_BAND), core.q(alpha[n])) != "ok":
+        band = TOL_BAND * max(Fraction(1), _sqrt_up(_dot(Wq[n], Wq[n]), 20))  # solver tolerance scales with ‖w_n‖
+        if ctx.ask("inband", lo, hi, core.q(band), core.q(alpha[n])) != "ok":
             ctx.violation("alpha-not-optimum",
                           "OrderingCone.alpha[n] is outside the certified interval [w_n·x, ‖w_n+Wᵀλ‖] ± 1e-7 "
                           "for max{w_n·x | Wx ≥ 0, ‖x‖ ≤ 1}", case,
@@ -383,6 +438,26 @@ def run_case(ctx, case):
                 ctx.violation("theta-closed-form", "certified α interval of get_2d_w(θ) does not contain the closed form "
                               "sin θ / 1 proved for unit normals with w₁·w₂ = −cos θ", case, kind="F",
                               detail={"row": n, "closed": cf, "lo": float(Fraction(lo)), "hi": float(Fraction(hi))})
+
+    # ---- scaling law on the real code: α_n(diag(c)·W0) = c_n · α_n(W0) for c > 0
+    if kind == "nonunit":
+        from vopy.utils import get_alpha_vec
+
+        try:
+            a0 = np.array(get_alpha_vec(np.array(case["W0"], dtype=float)), dtype=float).reshape(-1)
+        except Exception as e:
+            ctx.violation("alpha-crash:" + core.exc_key(e), f"get_alpha_vec raised {type(e).__name__}: {e}", case)
+            a0 = None
+        if a0 is not None:
+            for n in range(N):
+                cn = float(case["scale"][n])
+                if not abs(alpha[n] - cn * a0[n]) <= 1e-7 * max(1.0, cn, float(np.linalg.norm(W[n]))):
+                    ctx.violation("alpha-scaling-law", "get_alpha_vec: α_n(diag(c)·W) ≠ c_n·α_n(W) (1e-7) — α_n is the maximum of "
+                                  "the facet functional for the rows as given, hence positively homogeneous in row n and "
+                                  "independent of the scale of the other rows", case,
+                                  detail={"row": n, "c": cn, "alpha_scaled": repr(alpha[n]), "alpha_base": repr(a0[n])})
+                    break
+            ctx.count("scaling_law_checked")
 
     # ---- u*, d₁ from both copies of compute_u_star
     from vopy.algorithms.vogp import VOGP
